@@ -17,6 +17,7 @@ import (
 	"math/rand"
 	"net"
 	"os"
+	"path/filepath"
 	"strconv"
 	"strings"
 	"sync"
@@ -41,6 +42,10 @@ type PeerSpec struct {
 	// Meta (magnet scenarios): "" = offers ut_metadata and serves it, "no" = does not offer it,
 	// "stall" = offers it (metadata_size advertised), receives the requests and never answers, stays connected
 	Meta string `json:"meta"`
+	// Trigger "dropstallers" (honest peers): when this peer is asked for a piece that a stalling peer holds (end-game duplicate),
+	// every stalling peer holding ANOTHER piece hangs up before this peer answers: that piece loses its only downloader while
+	// the honest peer is busy
+	Trigger string `json:"trigger"`
 }
 
 type WsSpec struct {
@@ -76,18 +81,80 @@ type Scenario struct {
 	Magnet bool `json:"magnet"`
 	// Prefill: content of the torrent's storage before it is added: "" / "none" (empty), "partial" (first half of the pieces
 	// right, the rest foreign bytes), "onebad" (all right but one piece), "full", "zeros" (files exist, all zero),
-	// "somefiles" (every second file present and right, the others absent)
+	// "somefiles" (every second file present and right, the others absent), "longer" (right content followed by foreign bytes in
+	// every second file, data in zero-length files), "longerbad" (as partial, plus tails), "shorter" (right content, files cut short)
 	Prefill string `json:"prefill"`
 	// After: "damage_verify_start" = after completion: Stop, damage piece DamagePiece in storage, Verify, Start;
 	// the piece must be found missing and fetched again (completion expected a second time)
+	// "lose_files_start" = after completion: Stop, files LoseFiles ("first" | "last" | "alternate" | "allbutfirst" | "all") disappear
+	// from the storage, Start: nothing of the vanished files may be claimed; completion expected again
 	After       string `json:"after"`
 	DamagePiece int    `json:"damagePiece"`
+	LoseFiles   string `json:"loseFiles"`
+	// RealFS: the session's own file storage on a real directory (no recording storage: writes are not observed, files are compared)
+	RealFS bool `json:"realfs"`
+	// WsMax > 0: Config.WebseedMaxDownloads
+	WsMax int `json:"wsMax"`
 }
 
 var (
 	T   *vh.Tracer
 	hub *vh.SnapHub
 )
+
+// stallReg records which piece every stalling peer of the running scenario holds (the piece of the first request it swallowed).
+type stallReg struct {
+	mu    sync.Mutex
+	held  map[*vh.Seeder]int
+	fired bool
+}
+
+var stalls = &stallReg{held: map[*vh.Seeder]int{}}
+
+func (g *stallReg) hold(s *vh.Seeder, piece int) {
+	g.mu.Lock()
+	if _, ok := g.held[s]; !ok {
+		g.held[s] = piece
+		T.Emit(vh.Ev{"ev": "stallhold", "conn": s.Name, "piece": piece})
+	}
+	g.mu.Unlock()
+}
+
+func (g *stallReg) count() int {
+	g.mu.Lock()
+	defer g.mu.Unlock()
+	return len(g.held)
+}
+
+// honestAsked: an honest peer is asked for piece idx. If a stalling peer holds idx (this is an end-game duplicate), the stalling
+// peers holding other pieces hang up now, and the honest peer takes a moment before it answers.
+func (g *stallReg) honestAsked(idx int) {
+	g.mu.Lock()
+	if g.fired {
+		g.mu.Unlock()
+		return
+	}
+	dup := false
+	var victims []*vh.Seeder
+	for s, p := range g.held {
+		if p == idx {
+			dup = true
+		} else {
+			victims = append(victims, s)
+		}
+	}
+	if !dup || len(victims) == 0 {
+		g.mu.Unlock()
+		return
+	}
+	g.fired = true
+	g.mu.Unlock()
+	for _, v := range victims {
+		T.Emit(vh.Ev{"ev": "drop", "conn": v.Name, "dup": idx})
+		v.Close()
+	}
+	time.Sleep(300 * time.Millisecond)
+}
 
 func layoutByName(name string, unit int) (vh.Layout, bool) {
 	for _, l := range vh.StdLayouts(unit) {
@@ -137,7 +204,7 @@ func layoutByName(name string, unit int) (vh.Layout, bool) {
 }
 
 // prefill stores a (partly right, partly wrong) copy of the torrent's files before the torrent is added.
-func prefill(st *vh.MemStorage, tor *vh.Torrent, mode string, seed int64) {
+func prefill(st store, tor *vh.Torrent, mode string, seed int64) {
 	if mode == "" || mode == "none" {
 		return
 	}
@@ -145,7 +212,7 @@ func prefill(st *vh.MemStorage, tor *vh.Torrent, mode string, seed int64) {
 	np := tor.NumPieces
 	wrong := func(i int) bool { return false }
 	switch mode {
-	case "partial":
+	case "partial", "longerbad":
 		wrong = func(i int) bool { return i >= (np+1)/2 }
 	case "onebad":
 		k := rng.Intn(np)
@@ -176,12 +243,21 @@ func prefill(st *vh.MemStorage, tor *vh.Torrent, mode string, seed int64) {
 		if mode == "somefiles" && nf%2 == 0 {
 			continue
 		}
-		st.Put(tor.StoragePath(fi), flat[tor.FileStart(fi):tor.FileStart(fi)+f.Length])
+		d := append([]byte(nil), flat[tor.FileStart(fi):tor.FileStart(fi)+f.Length]...)
+		switch {
+		case (mode == "longer" || mode == "longerbad") && (nf%2 == 1 || f.Length == 0): // an older / bigger version of the file
+			tail := make([]byte, 1+rng.Intn(5000))
+			rng.Read(tail)
+			d = append(d, tail...)
+		case mode == "shorter" && len(d) > 1:
+			d = d[:len(d)-1-rng.Intn(min(len(d)-1, 3000))]
+		}
+		st.Put(tor.StoragePath(fi), d)
 	}
 }
 
 // damage flips bytes of piece p in storage (while the torrent is stopped); returns false if the piece has no stored byte.
-func damage(st *vh.MemStorage, tor *vh.Torrent, p int) bool {
+func damage(st store, tor *vh.Torrent, p int) bool {
 	ps := int64(p) * int64(tor.PieceLen)
 	pe := ps + int64(tor.PieceLenOf(p))
 	done := false
@@ -282,6 +358,9 @@ func policy(ps PeerSpec, tor *vh.Torrent, sentBad *atomic.Int64, magnet bool) *v
 	pol.Reply = func(s *vh.Seeder, req vh.Msg) ([]vh.Msg, bool) {
 		if !valid(s, req) {
 			return nil, false
+		}
+		if ps.Trigger == "dropstallers" {
+			stalls.honestAsked(int(req.Index))
 		}
 		mu.Lock()
 		defer mu.Unlock()
@@ -400,6 +479,7 @@ func policy(ps PeerSpec, tor *vh.Torrent, sentBad *atomic.Int64, magnet bool) *v
 			}
 		case "stall":
 			if served >= max(ps.K, 1) {
+				stalls.hold(s, int(req.Index))
 				return nil, true
 			}
 		case "disconnect":
@@ -417,6 +497,7 @@ type runner struct {
 	sc    Scenario
 	tor   *vh.Torrent
 	prov  *vh.MemProvider
+	st    store // the torrent's storage as the harness sees it (recording memory storage or real directory)
 	sess  *torrent.Session
 	tr    *torrent.Torrent
 	id    string
@@ -504,6 +585,7 @@ func run(sc Scenario, dir string) {
 	}
 	r := &runner{sc: sc}
 	T.Trace = sc.ID
+	stalls = &stallReg{held: map[*vh.Seeder]int{}}
 	// web seeds first: their URLs go into the metainfo
 	var wsurls []string
 	var wss []*vh.WebSeed
@@ -551,7 +633,12 @@ func run(sc Scenario, dir string) {
 	r.prov = vh.NewMemProvider(T)
 	r.prov.Truth[""] = tor
 	r.prov.Quiet = true
-	cfg.CustomStorage = r.prov
+	if !sc.RealFS {
+		cfg.CustomStorage = r.prov
+	}
+	if sc.WsMax > 0 {
+		cfg.WebseedMaxDownloads = sc.WsMax
+	}
 	cfg.RequestTimeout = 1200 * time.Millisecond
 	if sc.RequestsOut > 0 {
 		cfg.DefaultRequestsOut = sc.RequestsOut
@@ -568,11 +655,16 @@ func run(sc Scenario, dir string) {
 	}
 	// the storage may hold a (partly right) copy before the torrent is added; the id is chosen here so that it can be filled first
 	r.id = fmt.Sprintf("xf%d", sc.ID)
-	prefill(r.prov.Store(r.id), tor, sc.Prefill, sc.Seed)
+	r.st = r.prov.Store(r.id)
+	if sc.RealFS {
+		r.st = &fsStore{root: filepath.Join(cfg.DataDir, r.id)}
+		os.RemoveAll(filepath.Join(cfg.DataDir, r.id))
+	}
+	prefill(r.st, tor, sc.Prefill, sc.Seed)
 	npl := make([]int, tor.NumPieces)
 	plen := make([]int, tor.NumPieces)
 	good0 := []int{}
-	cls0 := r.prov.Store(r.id).PieceClasses(tor)
+	cls0 := r.st.PieceClasses(tor)
 	for i := range npl {
 		npl[i] = tor.NonPadLen(i)
 		plen[i] = tor.PieceLenOf(i)
@@ -585,7 +677,7 @@ func run(sc Scenario, dir string) {
 		peers = append(peers, vh.Ev{"name": p.Name, "ip": p.IP, "policy": p.Policy, "have": p.Have, "sole": p.Sole})
 	}
 	T.Emit(vh.Ev{"ev": "init", "np": tor.NumPieces, "nonpad": npl, "plen": plen, "layout": sc.Layout, "unit": sc.Unit, "seq": sc.Seq,
-		"peers": peers, "nws": len(sc.Webseeds), "honest": sc.Honest, "total": tor.Total, "magnet": sc.Magnet, "prefill": sc.Prefill, "good0": good0})
+		"peers": peers, "nws": len(sc.Webseeds), "honest": sc.Honest, "total": tor.Total, "magnet": sc.Magnet, "prefill": sc.Prefill, "good0": good0, "realfs": sc.RealFS})
 
 	var sentBad atomic.Int64
 	// timing gates
@@ -799,6 +891,17 @@ func run(sc Scenario, dir string) {
 			if ps.JoinAfterMs > 0 {
 				time.Sleep(time.Duration(ps.JoinAfterMs) * time.Millisecond)
 			}
+			if ps.Trigger == "dropstallers" { // joins when every stalling peer holds a piece
+				n := 0
+				for _, q := range sc.Peers {
+					if q.Policy == "stall" {
+						n++
+					}
+				}
+				for dl := time.Now().Add(5 * time.Second); stalls.count() < n && time.Now().Before(dl); {
+					time.Sleep(5 * time.Millisecond)
+				}
+			}
 			if s := r.connect(ps, &sentBad); s != nil {
 				r.mu.Lock()
 				r.seeds = append(r.seeds, s)
@@ -824,7 +927,10 @@ func run(sc Scenario, dir string) {
 			select {
 			case <-complete:
 				st := tr.Stats()
-				T.Emit(vh.Ev{"ev": "complete", "filesOK": r.prov.Store(r.id).Complete(tor), "status": st.Status.String(), "have": int(st.Pieces.Have)})
+				if sc.RealFS { // writes are not observed on the real file system: the files are read when completion is reported
+					T.Emit(vh.Ev{"ev": "disk", "class": r.st.PieceClasses(tor)})
+				}
+				T.Emit(vh.Ev{"ev": "complete", "filesOK": r.st.Complete(tor), "status": st.Status.String(), "have": int(st.Pieces.Have)})
 				return true
 			case <-tk.C:
 			}
@@ -870,8 +976,8 @@ func run(sc Scenario, dir string) {
 		if sn := hub.Get(r.id); sn != nil {
 			seq0 = sn.Seq
 		}
-		damaged := damage(r.prov.Store(r.id), tor, p)
-		cls := r.prov.Store(r.id).PieceClasses(tor)
+		damaged := damage(r.st, tor, p)
+		cls := r.st.PieceClasses(tor)
 		T.Emit(vh.Ev{"ev": "cmd", "op": "verify", "damaged": damaged, "piece": p})
 		tr.Verify()
 		// The loop has taken the command (it drops its bitfield before anything else), so from here on every claim is judged
@@ -904,6 +1010,45 @@ func run(sc Scenario, dir string) {
 		awaitComplete(complete2)
 	}
 
+	if completed && sc.After == "lose_files_start" {
+		// completed torrent -> stopped -> some (or all) of its files disappear -> Start: the client must not go on claiming the
+		// pieces of the vanished files; they are fetched again and completion is reported only when the files are right again
+		T.Emit(vh.Ev{"ev": "cmd", "op": "stop"})
+		tr.Stop()
+		hub.Wait(r.id, 5*time.Second, func(s *torrent.VerifSnap) bool { return s.Status == "Stopped" })
+		pollMu.Lock()
+		var seq0 uint64
+		if sn := hub.Get(r.id); sn != nil {
+			seq0 = sn.Seq
+		}
+		lost := []string{}
+		for _, fi := range filesToLose(tor, sc.LoseFiles) {
+			if r.st.Delete(tor.StoragePath(fi)) {
+				lost = append(lost, tor.StoragePath(fi))
+			}
+		}
+		cls := r.st.PieceClasses(tor)
+		T.Emit(vh.Ev{"ev": "cmd", "op": "start", "lost": lost})
+		tr.Start()
+		// Until the torrent has opened its files again (allocation) it cannot know that files are gone: the change of the storage
+		// is recorded when the loop has left the Stopped / Allocating states; every claim after that point is judged against it.
+		// (The allocator re-creates the files zero-filled, which leaves the classes as they are: ground truth is random data.)
+		opened := hub.Wait(r.id, 8*time.Second, func(s *torrent.VerifSnap) bool {
+			return s.Seq > seq0 && s.Status != "Stopped" && s.Status != "Allocating" && !s.Allocating
+		})
+		T.Emit(vh.Ev{"ev": "disk-lost", "class": cls, "files": lost, "opened": opened})
+		pollMu.Unlock()
+		// the completion channel is replaced when the (re-)verification finds pieces missing: ask for it when the torrent is past it
+		settled := hub.Wait(r.id, 10*time.Second, func(s *torrent.VerifSnap) bool {
+			return s.Seq > seq0 && s.Acceptor && !s.Verifying && !s.Allocating && (s.Status == "Downloading" || s.Status == "Seeding")
+		})
+		complete2 := tr.NotifyComplete()
+		T.Emit(vh.Ev{"ev": "cmd", "op": "restarted", "ok": settled})
+		time.Sleep(30 * time.Millisecond)
+		reconnectHonest("-l")
+		awaitComplete(complete2)
+	}
+
 	close(stopPoll)
 	pollWG.Wait()
 	r.statsEvent()
@@ -924,7 +1069,7 @@ func run(sc Scenario, dir string) {
 	}
 	sess.Close()
 	// what the storage holds now, and what the resume database claims
-	cls := r.prov.Store(r.id).PieceClasses(tor)
+	cls := r.st.PieceClasses(tor)
 	T.Emit(vh.Ev{"ev": "disk", "class": cls})
 	bits, found, err := readResume(cfg.Database, r.id)
 	e := vh.Ev{"ev": "resume", "found": found, "bits": bits}
